@@ -65,8 +65,9 @@ func compatible(r *lib.Rng, cur string, concrete bool) string {
 	return c[r.Intn(len(c))]
 }
 
-func genBase(r *lib.Rng, nconn int, concrete bool) *base {
+func genBase(r *lib.Rng, nconn int, concrete bool, clean bool) *base {
 	b := &base{}
+	badH := func(n, d int) bool { return !clean && r.Chance(n, d) }
 	b.in = pickTy(r, concrete)
 	if !concrete && r.Chance(1, 4) {
 		b.state = 1 + r.Intn(2)
@@ -85,7 +86,7 @@ func genBase(r *lib.Rng, nconn int, concrete bool) *base {
 			o := Op{K: "pass", Key: k}
 			if b.state != 0 && r.Chance(1, 4) {
 				o.Pre = &H{State: b.state, Ty: "any"}
-				if r.Chance(1, 5) {
+				if badH(1, 5) {
 					o.Pre.Ty = pickTy(r, false)
 				}
 			}
@@ -105,19 +106,19 @@ func genBase(r *lib.Rng, nconn int, concrete bool) *base {
 		if r.Chance(1, 3) {
 			o.Out = o.In // keeps long chains typable
 		}
-		if (b.state != 0 && r.Chance(1, 3)) || r.Chance(1, 40) {
+		if (b.state != 0 && r.Chance(1, 3)) || badH(1, 40) {
 			st := b.state
-			if st == 0 || r.Chance(1, 8) {
+			if st == 0 || badH(1, 8) {
 				st = 1 + r.Intn(2)
 			}
 			o.Pre = &H{State: st, Ty: o.In}
-			if r.Chance(1, 6) {
+			if badH(1, 6) {
 				o.Pre.Ty = pickTy(r, false)
 			}
 		}
 		if b.state != 0 && r.Chance(1, 4) {
 			o.Post = &H{State: b.state, Ty: o.Out}
-			if r.Chance(1, 6) {
+			if badH(1, 6) {
 				o.Post.Ty = pickTy(r, false)
 			}
 		}
@@ -170,7 +171,7 @@ func genBase(r *lib.Rng, nconn int, concrete bool) *base {
 		o := Op{K: "branch", S: s}
 		ends := map[int]bool{first: true}
 		want := r.Range(2, 3)
-		if r.Chance(1, 12) {
+		if badH(1, 12) {
 			want = 1 // rejected: "number of branches is 1"
 		}
 		for tries := 0; len(ends) < want && tries < 10; tries++ {
@@ -220,13 +221,36 @@ func genBase(r *lib.Rng, nconn int, concrete bool) *base {
 			b.conns = append(b.conns, Op{K: "edge", S: s, E: e})
 		}
 	}
-	for len(b.conns) < nconn {
-		s, e := anyNode(), anyNode()
-		if s == 1 && r.Chance(9, 10) {
-			s = 0
+	compat := func(a, t string) bool {
+		if a == "" || t == "" || a == t {
+			return true
 		}
-		if e == 0 && r.Chance(9, 10) {
-			e = 1
+		return (isIface(t) && rtypes[a].Implements(rtypes[t])) || (isIface(a) && rtypes[t].Implements(rtypes[a]))
+	}
+	dup := func(s, e int) bool {
+		for _, o := range b.conns {
+			if o.K == "edge" && o.S == s && o.E == e {
+				return true
+			}
+		}
+		return false
+	}
+	for len(b.conns) < nconn {
+		var s, e int
+		for tries := 0; tries < 8; tries++ {
+			s, e = anyNode(), anyNode()
+			if s == 1 && r.Chance(9, 10) {
+				s = 0
+			}
+			if e == 0 && r.Chance(9, 10) {
+				e = 1
+			}
+			if clean && (s == 1 || e == 0 || dup(s, e)) {
+				continue
+			}
+			if compat(typeOfOut(s), typeOfIn(e)) || r.Chance(1, 8) {
+				break
+			}
 		}
 		if r.Chance(1, 5) {
 			b.conns = append(b.conns, mkBranch(s, e))
@@ -296,7 +320,7 @@ func (b *base) withIDs() (nodes, conns []Op) {
 
 func (engine) Generate(r *lib.Rng, tier string, i int) any {
 	seed := runSeed()
-	exhaustive, kmax, rmax := 1500, 5, 7 // blocks: sizes cycle 3,4,5 -> 6+24+120 = 150 per triple
+	exhaustive, kmax, rmax := 3000, 5, 7 // blocks: sizes cycle 3,4,5 -> 6+24+120 = 150 per triple
 	if tier == "thorough" {
 		exhaustive, kmax, rmax = 10*(6+24+120+720), 6, 9
 	}
@@ -318,7 +342,7 @@ func (engine) Generate(r *lib.Rng, tier string, i int) any {
 		k := sizes[blk%len(sizes)]
 		br := lib.NewRng(seed*1000003 + 17).Fork(uint64(blk))
 		concrete := (blk/len(sizes))%2 == 0
-		b := genBase(br, k, concrete)
+		b := genBase(br, k, concrete, true)
 		nodes, conns := b.withIDs()
 		c := &Case{In: b.in, Out: b.out, State: b.state, Salt: blk, Src: "perm"}
 		c.Ops = append(c.Ops, nodes...)
@@ -330,7 +354,7 @@ func (engine) Generate(r *lib.Rng, tier string, i int) any {
 	}
 	// random stream
 	concrete := r.Chance(1, 4)
-	b := genBase(r, r.Range(2, rmax), concrete)
+	b := genBase(r, r.Range(2, rmax), concrete, r.Chance(1, 2))
 	nodes, conns := b.withIDs()
 	c := &Case{In: b.in, Out: b.out, State: b.state, Salt: r.Intn(7), Src: "rand"}
 	all := append(append([]Op(nil), nodes...), conns...)
